@@ -581,6 +581,8 @@ def class_key(m, fine):
     member_level = m["bc"] in ("top", "if", "elseif", "else", "optional")
     if m["intent"] == "none":
         return (m["intent"], m["bc"], m["var"])      # controls: one per kind of edit
+    if m["var"] in ("float", "CString", "negative", "narrower", "wider", "specialise"):
+        return (m["intent"], m["bc"], m["var"])      # secondary variants: one site each in the quick tier
     return (m["intent"], m["oc"] if (not member_level or m["bc"] == "top") else m["bc"], m["var"])
 
 
